@@ -105,12 +105,23 @@ impl TraitCodegen<'_> {
                         }
                     };
                     let body = match output {
+                        // (the first statement says what the block returns: a `return` in the body is
+                        // checked, and coerced, against the declared type like the tail expression)
                         Some(output) => quote! {
+                            if let ::core::option::Option::Some(__ret) =
+                                ::core::option::Option::None::<#output>
+                            {
+                                return __ret;
+                            }
                             let __ret: #output = #body;
                             #[allow(unreachable_code)]
                             __ret
                         },
-                        None => quote! { #body },
+                        // (the statements of the body, not the body as a block inside the block)
+                        None => {
+                            let statements = &body.stmts;
+                            quote! { #(#statements)* }
+                        }
                     };
                     quote! {
                         #(#types)*
